@@ -54,7 +54,7 @@ def answers (ds : DS) (s : St) : String :=
   let hs := ds.heights.map fun h => s!"{h}={optBlk ds (getBlockByHeight s h)}"
   let bs := ds.blocks.map fun p => s!"{p.1}={optBlk ds (getBlock s p.2.id)}"
   let ts := (List.range nTxs).map fun t => s!"{t}={txStr (getTransaction s t)}"
-  let dbs := s.db.map fun kv => s!"{kv.1}={nameOf ds kv.2}"
+  let dbs := s.db.map fun kv => s!"{toHex (blockEntryKey kv.1)}={nameOf ds kv.2}"
   s!"L={optBlk ds (getLatestBlock s)} H:{",".intercalate hs} B:{",".intercalate bs} T:{",".intercalate ts} D:{",".intercalate dbs}"
 
 def step (ds : DS) (ws : List String) : DS × String :=
